@@ -73,3 +73,73 @@ Example C11_ex :
   /\ validb (BBox 1 2 3 (MAXF - 1)) = true.
 Proof. vm_compute. repeat split. Qed.
 Print Assumptions C11_ex.
+
+(* ---- the guard, the dispatch and the closed forms as READ FROM THE SOURCE (Gen/Source.v is
+   regenerated from soundevent/geometry/operations.py on every run) ---- *)
+From SE Require Gen.Source Gen.SrcBuffer.
+From SE Require Import Gen.Prelude.
+
+Theorem C11_src_negative_rejected : forall g tb fb,
+  (tb < 0 \/ fb < 0) <-> Source.buffer_geometry g tb fb = Err EValue.
+Proof. exact SrcBuffer.src_negative_rejected. Qed.
+Print Assumptions C11_src_negative_rejected.
+
+Theorem C11_src_dispatch : forall g tb fb, 0 <= tb -> 0 <= fb ->
+  Source.buffer_geometry g tb fb =
+  match g with
+  | TimeStamp t => bind (Source.buffer_timestamp t tb) (fun r => Ok (Closed r))
+  | TimeInterval s e => bind (Source.buffer_interval (s, e) tb) (fun r => Ok (Closed r))
+  | BBox s lo e hi => bind (Source.buffer_bounding_box_geometry (s, lo, e, hi) tb fb) (fun r => Ok (Closed r))
+  | _ => Ok Shapely
+  end.
+Proof. exact SrcBuffer.src_dispatch. Qed.
+Print Assumptions C11_src_dispatch.
+
+Theorem C11_src_timestamp_exact : forall t tb, 0 <= t -> 0 <= tb ->
+  exists s' e', Source.buffer_timestamp t tb = Ok (TimeInterval s' e') /\
+    s' == Qmax (t - tb) 0 /\ e' == t + tb /\ validb (TimeInterval s' e') = true /\ s' <= t /\ t <= e'.
+Proof. exact SrcBuffer.src_timestamp_exact. Qed.
+Print Assumptions C11_src_timestamp_exact.
+
+Theorem C11_src_interval_exact : forall s e tb, 0 <= s -> s <= e -> 0 <= tb ->
+  exists s' e', Source.buffer_interval (s, e) tb = Ok (TimeInterval s' e') /\
+    s' == Qmax (s - tb) 0 /\ e' == e + tb /\ validb (TimeInterval s' e') = true /\ s' <= s /\ e <= e'.
+Proof. exact SrcBuffer.src_interval_exact. Qed.
+Print Assumptions C11_src_interval_exact.
+
+Theorem C11_src_bbox_exact : forall s lo e hi tb fb,
+  validb (BBox s lo e hi) = true -> 0 <= tb -> 0 <= fb ->
+  exists s' lo' e' hi', Source.buffer_bounding_box_geometry (s, lo, e, hi) tb fb = Ok (BBox s' lo' e' hi') /\
+    s' == Qmax (s - tb) 0 /\ lo' == Qmax (lo - fb) 0 /\ e' == e + tb /\ hi' == Qmin (hi + fb) MAXF /\
+    validb (BBox s' lo' e' hi') = true /\
+    s' <= s /\ lo' <= lo /\ e <= e' /\ hi <= hi'.
+Proof. exact SrcBuffer.src_bbox_exact. Qed.
+Print Assumptions C11_src_bbox_exact.
+
+Theorem C11_src_interval_monotone : forall s e tb1 tb2, tb1 <= tb2 ->
+  match Source.buffer_interval (s, e) tb1, Source.buffer_interval (s, e) tb2 with
+  | Ok (TimeInterval s1 e1), Ok (TimeInterval s2 e2) => s2 <= s1 /\ e1 <= e2
+  | _, _ => False
+  end.
+Proof. exact SrcBuffer.src_interval_monotone. Qed.
+Print Assumptions C11_src_interval_monotone.
+
+Theorem C11_src_bbox_monotone : forall s lo e hi tb1 tb2 fb1 fb2, tb1 <= tb2 -> fb1 <= fb2 ->
+  match Source.buffer_bounding_box_geometry (s, lo, e, hi) tb1 fb1,
+        Source.buffer_bounding_box_geometry (s, lo, e, hi) tb2 fb2 with
+  | Ok (BBox s1 l1 e1 h1), Ok (BBox s2 l2 e2 h2) => s2 <= s1 /\ l2 <= l1 /\ e1 <= e2 /\ h1 <= h2
+  | _, _ => False
+  end.
+Proof. exact SrcBuffer.src_bbox_monotone. Qed.
+Print Assumptions C11_src_bbox_monotone.
+
+(* the source as read and the hand-written model agree on every input (coordinates up to ==) *)
+Theorem C11_src_matches_model : forall g tb fb,
+  match Source.buffer_geometry g tb fb, buffer_geometry g tb fb with
+  | Ok (Closed a), Ok (Closed b) => geom_eqb a b = true
+  | Ok Shapely, Ok Shapely => True
+  | Err e1, Err e2 => e1 = e2
+  | _, _ => False
+  end.
+Proof. exact SrcBuffer.src_matches_model. Qed.
+Print Assumptions C11_src_matches_model.
